@@ -160,6 +160,8 @@ class Worker:
                     if t == "begin":
                         self.open_idx, self.open_seed = d["idx"], d["seed"]
                     elif t == "end":
+                        if self.wid >= 100:
+                            d["race"] = True
                         self.results.append(d)
                         self.open_idx = None
                     elif t == "done":
@@ -264,6 +266,8 @@ def run_single(prop, scenario, tier="quick", binpath=None, timeout=None, extra_e
         env = worker_env({"VERIF_PROP": prop, "VERIF_TIER": tier, "VERIF_SCENARIO": sp, "VERIF_OUT": out})
         if extra_env:
             env.update(extra_env)
+        if env.get("VERIF_RACE"):
+            env["GORACE"] = "halt_on_error=0 log_path=%s/race" % d
         cfgp = props.get(prop) or {}
         cpu_limit = cfgp.get("stall_s", 90)
         rss_limit = cfgp.get("rss_mb", 3000)
@@ -668,7 +672,7 @@ def main():
                 add_cand(v, sc, race=r.get("race", False))
     for (w, idx, sd, why, text) in died:
         # regenerate the scenario of that index
-        sc = emit_scenario(prop, tier, w.base, idx, w.binpath, cfg.get("env"))
+        sc = emit_scenario(prop, tier, w.base, idx, w.binpath, (w.extra_env if w.wid >= 100 else cfg.get("env")))
         if why == "died":
             kind, site, _ = banner_site(text)
         elif why.startswith("lock:"):
